@@ -374,6 +374,27 @@ def an_get(o, k):
     return ((o.get("asm") or {}).get("annot") or {}).get(k)
 
 
+IUPAC_SET = dict(a="a", c="c", g="g", t="t", u="t", r="ag", y="ct", s="cg", w="at", k="gt", m="ac", b="cgt", d="agt", h="act",
+                 v="acg", n="acgt")
+
+
+def documented_pairing_score(x, y, match, mismatch, scale):
+    """The documented column score: the two symbols match with probability |X n Y| / (|X| |Y|) (1 for identical
+    unambiguous bases, 0 for incompatible ones) and the score is that mixture of the quality-dependent match and
+    mismatch scores (independent of _PairingScorePeAlign: only the two table entries of pure match / pure mismatch
+    are taken from the implementation)."""
+    X, Y = IUPAC_SET.get(x), IUPAC_SET.get(y)
+    if X is None or Y is None:
+        return None
+    pm = len(set(X) & set(Y)) / len(X) / len(Y)
+    k = int(pm * 100)
+    if k == 100:
+        return match
+    if k == 0:
+        return int(float(mismatch) * scale + 0.5)
+    return int(pm * float(match) + (1 - pm) * float(mismatch) * scale + 0.5)
+
+
 def check_case(ctx, c, o, stats):
     """returns list of (what, detail) failures of the property on this observation."""
     fails = []
@@ -382,6 +403,15 @@ def check_case(ctx, c, o, stats):
     if o["kind"] != "ok":
         return [("panic", o.get("err", o["kind"]))]
     path, sc, gap = o["path"], o["sc"], o["gappen"]
+    # the per-column score itself against its documented definition (ambiguity codes are partial matches)
+    if o.get("mq") and o.get("mm") and len(o["mq"]) == la * lb:
+        for i in range(la):
+            for j in range(lb):
+                e = documented_pairing_score(a[i], b[j], o["mq"][i * lb + j], o["mm"][i * lb + j], c["scale"])
+                if e is not None and e != sc[i * lb + j]:
+                    fails.append(("column-score", dict(i=i, j=j, a=a[i], qa=qa[i], b=b[j], qb=qb[j], implementation=sc[i * lb + j], documented=e)))
+                    return fails
+        stats["column_scores_checked"] = stats.get("column_scores_checked", 0) + la * lb
     if not path_ok(path):
         return [("path-malformed", path)]
     cons = consumed(path)
